@@ -269,3 +269,36 @@ Definition ecase_why (c : ecase) : N :=
            else if e_closed c then (if e_must_complete c then 8 else 0) else 1
   | None => 1
   end.
+
+(* ---------------------------------------------------------------- (w) http.Handler variant: calls on the ResponseWriter *)
+Record wcase := {
+  w_meth : str; w_resp : resp; w_order : list str;
+  w_hdr : hmap;            (* rw.Header() when WriteHeader was called *)
+  w_code : N;              (* WriteHeader(code) *)
+  w_flush0 : bool;         (* Flush right after WriteHeader *)
+  w_writes : list str;     (* Write calls *)
+  w_flags : list bool;     (* was the ResponseWriter flushed after that Write *)
+  w_final : hmap }.        (* rw.Header() when writeResponse returned *)
+Definition wcase_model_ok (c : wcase) : bool :=
+  let r := w_resp c in
+  is_perm (w_order c) (keys (r_trailer r)) &&
+  hmap_eqb (handler_header r (w_order c)) (w_hdr c) && (r_code r =? w_code c) && w_flush0 c &&
+  list_str_eqb (reads_of r) (w_writes c) &&
+  list_bool_eqb (handler_flushes (w_meth c) r (reads_of r)) (w_flags c) &&
+  hmap_eqb (handler_final r (w_order c)) (w_final c).
+(* oracle (independent of Tables.v): what is handed to the server is the origin's status, every
+   header field with its values, the body byte for byte, every declared trailer with its
+   values; a body of unknown length is flushed after every non-empty write *)
+Definition vals_of (k : str) (h : hmap) : list str := match raw_get k h with Some vs => vs | None => [] end.
+Definition wcase_prop_ok (c : wcase) : bool :=
+  let r := w_resp c in
+  (r_code r =? w_code c) && w_flush0 c &&
+  str_eqb (concat (w_writes c)) (body_bytes r) &&
+  forallb (fun kv => match snd kv with [] => true | _ => list_str_eqb (vals_of (canon (fst kv)) (w_hdr c)) (snd kv) end) (r_hdr r) &&
+  forallb (fun kv => match snd kv with
+                     | [] => true
+                     | vs => list_str_eqb (vals_of (canon (fst kv)) (w_final c)) vs ||
+                             list_str_eqb (vals_of (b "Trailer:" ++ fst kv) (w_final c)) vs
+                     end) (r_trailer r) &&
+  (negb ((r_major r =? 1) && (r_minor r =? 1) && (r_cl r =? -1)%Z && negb (rfc_no_body (w_meth c) (r_code r))) ||
+   list_bool_eqb (map nonempty (w_writes c)) (w_flags c)).
